@@ -25,19 +25,36 @@ func (errDeadlock) Error() string {
 
 // NextSyncQuantum, set by a Chooser before it returns, makes the chosen task yield right
 // after its k-th modelled synchronisation operation from now (atomic operation, lock,
-// unlock, Once, pool Get/Put), i.e. at the step point that follows the statement performing
-// it -- the preemption points that separate two operations meant to be one (CHESS-style).
+// unlock, Once, pool Get/Put, go, WaitGroup), i.e. at the step point that follows the
+// statement performing it -- the preemption points that separate two operations meant to
+// be one (CHESS-style). With NextUntilObj also set, the count starts only once the task has
+// performed an operation on that object: "run until you touch what the other task just
+// touched, then k more operations" -- this lines two tasks up at the same site without
+// knowing where the site is (race-directed, after RaceFuzzer).
 var NextSyncQuantum int64
+var NextUntilObj unsafe.Pointer
+
+// PrevSyncObj is the object of the most recent synchronisation operation (performed by
+// the task that ran last); a Chooser reads it.
+var PrevSyncObj unsafe.Pointer
 
 // SyncOps counts modelled synchronisation operations executed under the scheduler.
 var SyncOps int64
 
-func syncPoint() {
+func syncPoint(obj unsafe.Pointer) {
 	if !schedActive || curTask == nil {
 		return
 	}
 	SyncOps++
+	PrevSyncObj = obj
 	t := curTask
+	if t.untilObj != nil {
+		if obj == t.untilObj {
+			t.untilObj = nil
+			t.syncQ = t.afterK
+		}
+		return
+	}
 	if t.syncQ > 0 {
 		t.syncQ--
 		if t.syncQ == 0 {
@@ -62,11 +79,11 @@ func MutexLock(m *sync.Mutex) {
 	}
 	SyncAcquire(unsafe.Pointer(m))
 	curTask.locks++
-	syncPoint()
+	syncPoint(unsafe.Pointer(m))
 }
 
 func MutexUnlock(m *sync.Mutex) {
-	syncPoint()
+	syncPoint(unsafe.Pointer(m))
 	if schedActive && curTask != nil && curTask.locks > 0 {
 		curTask.locks--
 	}
@@ -107,11 +124,11 @@ func RWLock(m *sync.RWMutex) {
 	SyncAcquire(unsafe.Pointer(m))
 	SyncAcquire(rclock(m))
 	curTask.locks++
-	syncPoint()
+	syncPoint(unsafe.Pointer(m))
 }
 
 func RWUnlock(m *sync.RWMutex) {
-	syncPoint()
+	syncPoint(unsafe.Pointer(m))
 	if schedActive && curTask != nil && curTask.locks > 0 {
 		curTask.locks--
 	}
@@ -134,12 +151,12 @@ func RWRLock(m *sync.RWMutex) {
 		blockYield()
 	}
 	SyncAcquire(unsafe.Pointer(m))
-	syncPoint()
+	syncPoint(unsafe.Pointer(m))
 }
 
 // RWRUnlock: a later WRITER is ordered after this reader; other readers are not.
 func RWRUnlock(m *sync.RWMutex) {
-	syncPoint()
+	syncPoint(unsafe.Pointer(m))
 	SyncRelease(rclock(m))
 	m.RUnlock()
 }
@@ -163,7 +180,7 @@ func OnceDo(o *sync.Once, f func()) {
 		}
 		blockYield()
 	}
-	syncPoint()
+	syncPoint(unsafe.Pointer(o))
 	SyncAcquire(unsafe.Pointer(o))
 	o.Do(func() {
 		onceBusy[o] = curTask.id
@@ -217,7 +234,10 @@ func AtomicOp[T any](site uint32, p *T) {
 	SyncAcquire(obj)
 	SyncRelease(obj)
 	curTask.pending = append(curTask.pending, obj)
-	syncPoint()
+	if LogAccesses && len(accessLog) < 400000 {
+		accessLog = append(accessLog, AccessRec{curTask.id, curTask.steps, site, uintptr(obj), true})
+	}
+	syncPoint(obj)
 }
 
 // ---- sync.Pool ----
